@@ -410,6 +410,8 @@ impl Clone for Natural {
                 return;
             }
             self.ptr = NonNull::new(Box::<[u64]>::into_raw(src.into()).cast()).unwrap();
+        } else {
+            self.ptr = DANGLING;
         }
         self.len = source.len;
 
